@@ -6,7 +6,7 @@
 //
 // Commands (one per line):
 //   U <id>                 new case
-//   T <transition>         append a program transition (index = order of definition; grammar in mctrans.hpp)
+//   T <transition>         append a program transition (index = order of definition; grammar in unf_trans.hpp)
 //   Y <0|1|2> [salt]       style of immediate causes: 0 = maximal dependent predecessors (what ExtensionSetCalculator builds with
 //                          get_largest_maximal_subset), 1 = all dependent predecessors, 2 = the maximal ones + the previous event
 //                          of the same actor + a pseudo-random (function of transition, predecessor and salt) choice of other
